@@ -6,7 +6,8 @@ ID = "C04"
 THM_MODULES = ["Minicbor.Thm.C04", "Minicbor.Thm.C05"]
 P = "Minicbor.C04."
 REQUIRED = [P + n for n in """bytes_sound str_sound str_invalid_utf8 array_sound map_sound tag_sound array_indef map_indef
-bool_sound null_sound undefined_sound simple_sound chunkLoop_bytes chunkLoop_text bytes_iter_indef str_iter_indef""".split()] + \
+bool_sound null_sound undefined_sound simple_sound chunkLoop_bytes chunkLoop_text bytes_iter_indef str_iter_indef
+size_head_sound size_tail_sound""".split()] + \
            ["Minicbor.C05.int_accessor_exact"]
 PACKAGES = ["hcore"]
 RULE = ("dec <accessor> <encW(tree) ++ suffix>: wire trees = all scalar shapes at every head width and boundary argument, containers of 0..3 "
@@ -79,12 +80,36 @@ def streams(rng, tier):
     s1 = Stream("accessors-on-trees", "hcore", ops, judge=judge, rule=RULE)
     s2 = Stream("strict-prefixes", "hcore", pre, judge=judge, rule="every strict prefix of encW(tree) through every matching accessor must be err eoi")
     s1.shrinkable = s2.shrinkable = False
+    # size introspection on the heads of the trees: oracle from the tree
+    sz = []
+    def size_exp(t):
+        k = t[0]
+        e = W.enc(t)
+        if k in ("bytes", "text"): hl = len(gen.head(2, len(t[2]), t[1])); return hl, f"ok bytes:{len(t[2])}"
+        if k == "array": hl = len(gen.head(4, len(t[2]), t[1])); return hl, f"ok items:{len(t[2])}"
+        if k == "map": hl = len(gen.head(5, len(t[2]) // 2, t[1])); return hl, f"ok items:{len(t[2]) // 2}"
+        if k in ("bytesI", "textI", "arrayI", "mapI"): return 1, "ok indef"
+        if k in ("uint", "nint"): return len(gen.head(0, t[2], t[1])), "ok head"
+        if k == "tag": return len(gen.head(6, t[2], t[1])), "ok head"
+        if k == "simple": return (1 if t[1] < 24 else 2), "ok head"
+        return {"f16": 3, "f32": 5, "f64": 9}[k], "ok head"
+    for t in trees[:3000]:
+        e = W.enc(t)
+        hl, tl = size_exp(t)
+        sz.append(f"size head {e[:1].hex()} #E=ok~{hl}")
+        sz.append(f"size tail {e[:hl].hex()} #E={tl.replace(' ', '~')}")
+    def judge_size(op, impl, model, spec):
+        exp = op.split(" ")[3][3:].replace("~", " ")
+        if impl != exp: return "violation"
+        return "ok" if impl == model else "corr"
+    s3 = Stream("size-introspection", "hcore", sz, judge=judge_size, rule="Size::head on the first byte and Size::tail on the head of every tree")
+    s3.shrinkable = False
     # typed decoding through the ~190 registered Rust types: strict prefixes of valid encodings must be `err eoi`;
     # re-framings (wider heads, indefinite containers / chunked strings) must give the value the model assigns and stop
     # exactly at the end (a disagreement with the model on a successful decode is a failing input)
     from verifkit.props import C01
     typed = C01.typed_mutation_streams(rng, tier)
-    return [s1, s2] + typed
+    return [s1, s2, s3] + typed
 
 
 def replay_streams(rp):
